@@ -314,6 +314,10 @@ class World:
                         envb = envb[:-1] + b"X\0"  # wrong record letter: exit 91, files left for the garbage collection
                     open(ef, "wb").write(envb)
                     env_i = h.env(role="inj%d" % started, uid=4242, trace=True, **senv)
+                    ft = sc.get("fault")
+                    if ft and ft["key"] == "inj%d" % started:
+                        env_i["VSHIM_FAULT"] = "%s:%s:%d:%s" % (ft["key"], ft["cls"], ft["k"], ft["err"])
+                        env_i["VSHIM_FAULTONCE"] = os.path.join(h.dir, "faultonce")
                     al = sc.get("alarm")
                     if al and al["inj"] == started:
                         # this injector's 24-hour timer fires just before its k-th mutating call (qmail-queue's own SIGALRM handler runs)
